@@ -14,8 +14,7 @@
 
    Leaves (the driver's SyntheticLeaf): mode "s" tells the value at once; "a" calls goAsync() and pauses until the lookup
    completes; "n" calls goAsync() with a starter that completes synchronously (resumeNonBlockingCheck() inside goAsync():
-   asyncStarting -> asyncFailed, goAsync() returns false) and then tells the value.  A leaf occurrence tells its scripted
-   value the first time and the opposite afterwards (served), so a walker that consults a leaf twice changes the decision. *)
+   asyncStarting -> asyncFailed, goAsync() returns false) and then tells the value.  Every consultation is logged. *)
 EXTENDS AclTree, Integers, TLC
 Inner(op, kids) == [op |-> op, kids |-> kids, name |-> "", leaf |-> ""]
 RECURSIVE ShapeLit(_), ShapeLine(_), Flat(_)
@@ -29,8 +28,8 @@ ShapeLit(l) ==
   IN IF l.neg THEN Inner("not", <<base>>) ELSE base
 Shape(rules) == Inner("or", [k \in 1..Len(rules) |-> ShapeLine(rules[k].lits)])
 
-\* per-check walker memory: answered lookups, leaves that told their value, the pending lookup, the consultation log
-W0 == [answered |-> {}, served |-> {}, pending |-> "", log |-> <<>>]
+\* per-check walker memory: answered lookups, the pending lookup, the consultation log
+W0 == [answered |-> {}, pending |-> "", log |-> <<>>]
 Ev(e, n) == [e |-> e, n |-> n]
 \* result of a (partial) match: r = "T" match, "F" mismatch, "P" paused by goAsync(); crumbs = breadcrumbs pushed while unwinding
 Res(r, crumbs, w, hit) == [r |-> r, crumbs |-> crumbs, w |-> w, hit |-> hit]
@@ -39,9 +38,7 @@ Res(r, crumbs, w, hit) == [r |-> r, crumbs |-> crumbs, w |-> w, hit |-> hit]
 LeafEval(node, w, env) ==
   LET md == env.mode[node.leaf]
       w1 == [w EXCEPT !.log = Append(@, Ev("eval", node.name))]
-      tell(wx) == LET tv == env.truth[node.leaf]
-                      v == IF node.name \in wx.served THEN ~tv ELSE tv
-                  IN Res(IF v THEN "T" ELSE "F", <<>>, [wx EXCEPT !.served = @ \cup {node.name}], 0)
+      tell(wx) == Res(IF env.truth[node.leaf] THEN "T" ELSE "F", <<>>, wx, 0)
   IN IF md = "s" \/ node.name \in w.answered THEN tell(w1)
      ELSE IF ~env.slow THEN Res("F", <<>>, w1, 0)                    \* goAsync() refuses: a fast directive uses a slow ACL
      ELSE IF md = "a" THEN Res("P", <<>>, [w1 EXCEPT !.pending = node.name, !.log = Append(@, Ev("async", node.name))], 0)
